@@ -244,6 +244,12 @@ func (o *objectGoReflect) elemToValue(ev reflect.Value) (Value, reflectValueWrap
 		return _null, nil
 	}
 
+	if ev.Kind() == reflect.Map && ev.CanAddr() && reflect.PointerTo(ev.Type()).NumMethod() == 0 {
+		// a map is a reference: the wrapper must keep referring to the map it was taken from, not to
+		// whatever is stored in the field / element later (a map type with methods may need its location)
+		ev = reflect.ValueOf(ev.Interface())
+	}
+
 	return o.val.runtime.toValue(ev.Interface(), ev), nil
 }
 
